@@ -166,7 +166,14 @@ fn helper_module(rng: &mut Rng, dir: &str, k: usize, names: &[String], o: &WsOpt
     }
     items.retain(|i| !matches!(i, Item::Test(_)));
     // now and then a local module is named like a standard-library module (legal: it is imported relatively)
-    let name = if o.stdlib_named_helpers && rng.chance(200) { format!("{}.py", rng.pick(&["http", "types", "random", "email", "string"])) } else { format!("fx_{}{}.py", dir.replace('/', "_"), k) };
+    // (a helper may also be named like a test module - `test_support_1.py` imported by others: the walk picks it up as well)
+    let name = if o.stdlib_named_helpers && rng.chance(200) {
+        format!("{}.py", rng.pick(&["http", "types", "random", "email", "string"]))
+    } else if rng.chance(120) {
+        format!("test_support_{}{}.py", dir.replace('/', "_"), k)
+    } else {
+        format!("fx_{}{}.py", dir.replace('/', "_"), k)
+    };
     PyFile { rel: join_rel(dir, &name), items }
 }
 
